@@ -2,6 +2,7 @@
  * The harness keeps its own record of live blocks (API-level rule: free(p) rolls back the block at
  * p iff p is the pointer of the most recent allocation) and monitors, independently of the model,
  * in-bounds, disjointness, canaries and the accounting identities (ok=1). */
+#define VF_NO_POOL 1   /* this harness includes the pool sources itself */
 #include "common.h"
 #include "memory/cc_static_pool.c"
 
